@@ -592,6 +592,12 @@ class Interp:
             it = self.iterate(val)
             cur.extend(it)
             return cur
+        if isinstance(cur, dict) and op == "or":
+            # d |= other : updates the SAME dictionary object in place (PEP 584)
+            if isinstance(val, dict):
+                cur.update(val)
+                return cur
+            raise Unsupported("dict |= non-literal mapping")
         if isinstance(cur, Arr) and cur.is_nd:
             # numpy in-place: keeps the array object and its dtype
             # the result may be lazy (symbolic length): it must read the OLD contents, not the object being updated
@@ -1218,6 +1224,8 @@ class Interp:
             return self.seq_binop(op, a, b)
         if isinstance(a, (Opaque,)) or isinstance(b, Opaque):
             raise Unsupported(f"arithmetic on {a!r} / {b!r}")
+        if isinstance(a, dict) and isinstance(b, dict) and op == "or":
+            return {**a, **b}  # d1 | d2 : a new dictionary (PEP 584)
         if isinstance(a, (dict, OpenDict)) or isinstance(b, (dict, OpenDict)):
             raise PyRaise("TypeError", "dict in arithmetic")
         if a is None or b is None:
